@@ -67,6 +67,14 @@ def gen_cases(ctx):
                     c["update_freq"] = r.choice([1, 1, 2, 3])
                     c["maxdepth"] = r.choice([2, 3, 4])
                     c["prec"] = [r.choice([0.25, 1.0, 4.0]) for _ in range(dim)]
+                    if preset in ("lowrank_nuts", "lowrank_mclmc") and dim >= 2 and c["store_mass_matrix"] and (rep + k + dim) % 2 == 0:
+                        # a strongly correlated Gaussian (covariance I + a 11^T): the low-rank
+                        # adaptation retains eigenvalues, so mass_matrix_eigvals has a low-rank part
+                        a = r.choice([20.0, 50.0])
+                        q = a / (1.0 + a * dim)
+                        c["dense_prec"] = [(1.0 if i == j else 0.0) - q for i in range(dim) for j in range(dim)]
+                        c["num_tune"] = max(c["num_tune"], r.choice([20, 30]))
+                        c["maxdepth"] = 4
                     kind = r.choice(["none", "region_rec", "region_energy", "region_nan", "script", "script"])
                     if dim == 0:
                         kind = r.choice(["none", "script"])
@@ -431,6 +439,11 @@ def run(ctx):
         stats["update_draws" if upd else "no_update_draws"] += 1
         if upd and inner:
             stats["lowrank_inner_updates"] += 1
+        for e in d["row"]:
+            if e[0] == "num_eigenvalues" and int(entry_scalar(e) or 0) > 0:
+                stats["retained_eigenvalue_rows"] = stats.get("retained_eigenvalue_rows", 0) + 1
+                if any(e2[0] == "mass_matrix_eigvals" and e2[1] is not None for e2 in d["row"]):
+                    stats["stored_eigvals_with_lowrank_part"] = stats.get("stored_eigvals_with_lowrank_part", 0) + 1
         pk = (c["preset"], tuple(c[f] for f in FLAGS), view)
         if cause == "unknown":
             pres_of_draw.append(None)
@@ -541,7 +554,8 @@ def run(ctx):
     # coverage of the quantifier: both kinds of divergence, updates and non-updates must have occurred
     stats["flag_combinations"] = len(stats["flag_combinations"])
     cov_ok = (stats["divergent"]["logp"] > 0 and stats["divergent"]["energy"] > 0 and stats["update_draws"] > 0
-              and stats["no_update_draws"] > 0 and stats["flag_combinations"] >= 6 * 32 - 8 and len(stats["presets"]) == 6)
+              and stats["no_update_draws"] > 0 and stats["flag_combinations"] >= 6 * 32 - 8 and len(stats["presets"]) == 6
+              and stats.get("stored_eigvals_with_lowrank_part", 0) > 0)
     ctx.oblig("coverage-of-histories", cov_ok, json.dumps(stats))
     stats["distinct_rows_replayed"] = len(row_keys)
     stats["distinct_presence_queries"] = len(pres_keys)
@@ -570,4 +584,4 @@ ASSUMPTIONS = {"C16": [
     "the statistics `draw` is the chain's draw counter after the draw (Progress.draw + 1); the property only asks for +1 per draw",
     "event statistics other than the identifying ones may be absent on event draws (divergence_momentum is never produced: DivergenceInfo.start_momentum is None at both construction sites; divergence_end / divergence_energy_error only for energy-error divergences; mass_matrix_eigvals only when a low-rank part exists)",
 ]}
-RULE = {"C16": "cases: 6 presets x all 32 combinations of store_gradient/store_unconstrained/store_transformed/store_divergences/store_mass_matrix x dims (NUTS {0,1,2,5}, MCLMC {2,5}; thorough: eight seeds each, half of them with num_tune in {30,45,60}) with use_grad_based_estimate alternating, seeded num_tune in {0,6,10,14,20}, window/update frequencies small enough for several transformation updates, fault scripts (none / region recoverable / region energy / region NaN / scripted single evaluations of both kinds); per case the declared schema and every draw's full row are compared with the model (schema: names/item_type/dims/event_dim of the regenerated declarations; row: get_all of the rebuilt value + shape check; presence: Stats.v row_presence on the view derived from message, logged ids through the model's `reports`, has_inner); oracle per row from the property text; non-trivial = distinct (preset, flags, dim, presence pattern)"}
+RULE = {"C16": "cases: 6 presets x all 32 combinations of store_gradient/store_unconstrained/store_transformed/store_divergences/store_mass_matrix x dims (NUTS {0,1,2,5}, MCLMC {2,5}; thorough: eight seeds each, half of them with num_tune in {30,45,60}) with use_grad_based_estimate alternating, seeded num_tune in {0,6,10,14,20}, window/update frequencies small enough for several transformation updates, strongly correlated Gaussians (covariance I + a 11^T) for the low-rank presets with store_mass_matrix so that eigenvalues are retained, fault scripts (none / region recoverable / region energy / region NaN / scripted single evaluations of both kinds); per case the declared schema and every draw's full row are compared with the model (schema: names/item_type/dims/event_dim of the regenerated declarations; row: get_all of the rebuilt value + shape check; presence: Stats.v row_presence on the view derived from message, logged ids through the model's `reports`, has_inner); oracle per row from the property text; non-trivial = distinct (preset, flags, dim, presence pattern)"}
